@@ -5,7 +5,7 @@ from vlib import hyp, fsgen, core, tool, run as vrun, e4ref, jbd2
 from checks import c03
 LEVEL = 'fault_enumeration'
 FRONTENDS = c03.FRONTENDS
-RULE = ('Hypothesis draws a valid journal (C03 generator without damage: 1-5 transactions, all tag/checksum formats, wrap, revokes, escapes) and a front-end out of %s. Recovery runs once under the syscall interposer, giving the ordered sequence of device writes and fsyncs and the '
+RULE = ('Hypothesis draws a journal (C03 generator, internal journals and external journal devices, undamaged or with one logged block whose checksum is broken: 1-5 transactions, all tag/checksum formats, wrap, revokes, escapes) and a front-end out of %s. Recovery runs once under the syscall interposer, giving the ordered sequence of device writes and fsyncs and the '
         'uninterrupted result R. Every program-order prefix of the writes is a crash point (enumerated exhaustively per journal); in addition, for sampled crash points, a drawn subset of the writes issued after the last completed fsync is dropped (lost / reordered unflushed writes; '
         'all subsets when at most 4 are pending). Each crashed image is recovered again with the same front-end and must end with exactly R on all pool blocks, an empty journal and needs_recovery clear. On every trace: the journal-superblock write with s_start=0 comes after an fsync that '
         'follows the last replayed-block write, and the filesystem superblock loses needs_recovery only after that. non-trivial = crash point inside the replay writes or between replay and journal reset; distinct by (journal, front-end, crash point, mask)') % FRONTENDS
@@ -21,27 +21,32 @@ def envinit(widx):
     env = hyp.img_env(widx, variants=('asan',)); env['base'] = {}
     return env
 
-def recover(t, fe, img, env=None):
+def recover(t, fe, img, env=None, jdev=None):
     if fe == 'debugfs jr': return vrun.run([t.debugfs, '-w', '-R', 'jr', img], env=env, merge=True, cpu=120)
-    return vrun.run([t.e2fsck] + fe.split()[1:] + [img], env=env, merge=True, cpu=120)
+    return vrun.run([t.e2fsck] + fe.split()[1:] + (['-j', jdev] if jdev else []) + [img], env=env, merge=True, cpu=120)
 
 def body(case, env):
-    fp = core.stable_hash(case); cfg = c03.FSCFG[case['fs']]; fe = FRONTENDS[case['fe']]; classes = ['fs:' + cfg['name'], 'frontend:' + fe]
+    fp = core.stable_hash(case); cfg = c03.FSCFG[case['fs']]; fe = FRONTENDS[case['fe'] % (2 if cfg.get('extjournal') else len(FRONTENDS))]; classes = ['fs:' + cfg['name'], 'frontend:' + fe]
     b = c03.base_image(env, case['fs'])
     if b is None: return (None, fp, False, None, classes + ['skip:base'])
+    jbase = env.get('base_j', {}).get(case['fs'])
     base, pool = b; bs = cfg['bs']; d = env['dir']; tp = env['plain']; ta = env['asan']
     # one case in four carries a logged data block with a broken checksum (v2/v3 journals): jbd2 skips that block, reports the error and resets the journal - the ordering
     # of fsync / journal reset must hold on that path too
     spec = dict(case, damage=(jbd2.DAMAGE.index('data-csum') if case.get('dmg') else 0), damage_at=case.get('dmg_at', 0))
-    img = os.path.join(d, 'c04.img'); shutil.copyfile(base, img)
-    try: expected, touched, candidates, poisoned, info = jbd2.write_journal(img, spec, pool)
+    img = os.path.join(d, 'c04.img'); shutil.copyfile(base, img); jimg = None
+    if jbase: jimg = os.path.join(d, 'c04.jnl'); shutil.copyfile(jbase, jimg); classes.append('external-journal')
+    try: expected, touched, candidates, poisoned, info = jbd2.write_journal(img, spec, pool, ext=jimg)
     except ValueError as e: return (None, fp, False, None, classes + ['skip:writer'])
-    fs_, jmap = jbd2.journal_map(img); jsb_off = jmap[0] * bs
+    # the journal superblock lives on device JD (0 = the filesystem image, 1 = the external journal device) at byte jsb_off
+    if jimg: JD = 1; jsb_off = jbd2.ext_journal_sb_block(bs) * bs
+    else: JD = 0; fs_, jmap = jbd2.journal_map(img); jsb_off = jmap[0] * bs
     poolset = set(pool)
     # ---- uninterrupted, traced run
-    w = os.path.join(d, 'c04w.img'); shutil.copyfile(img, w); log = os.path.join(d, 'iot.log')
+    w = os.path.join(d, 'c04w.img'); shutil.copyfile(img, w); log = os.path.join(d, 'iot.log'); wj = None
+    if jimg: wj = os.path.join(d, 'c04w.jnl'); shutil.copyfile(jimg, wj)
     if os.path.exists(log): os.unlink(log)
-    r = recover(tp, fe, w, env=vrun.traced_env(log, 'c04w.img'))
+    r = recover(tp, fe, w, env=vrun.traced_env(log, 'c04w.img', match2='c04w.jnl' if jimg else None), jdev=wj)
     ok_rc = (0,) if fe == 'debugfs jr' else (0, 1)
     if spec['damage']: ok_rc = (0, 1, 4, 5) if fe != 'debugfs jr' else (0, 1)     # e2fsck reports the journal checksum error (uncorrected bit) on such journals
     obs = dict(fs=cfg['name'], frontend=fe, csum=case['csum'], fmt64=case['fmt64'], log=info['log'])
@@ -53,29 +58,31 @@ def body(case, env):
     if damaged: classes.append('journal-with-bad-data-checksum')
     for n in pool:
         if not damaged and blk(R, n) != expected.get(n, blk(orig, n)): return (dict(obs, kind='uninterrupted-recovery-differs-from-model', block=n), fp, True, None, classes)
-    tr = [(op, off, dat) for op, off, dat in vrun.parse_trace(log) if op in 'WS']
-    writes = [i for i, (op, off, dat) in enumerate(tr) if op == 'W']
+    # trace records: (op 'W'/'S', offset, data, device)
+    tr = [(('W' if op in 'WX' else 'S'), off, dat, (1 if op in 'XY' else 0)) for op, off, dat in vrun.parse_trace(log) if op in 'WSXY']
+    writes = [i for i, x in enumerate(tr) if x[0] == 'W']
     # ---- trace invariants
     replayed = set(b_ for b_ in touched if blk(R, b_) != blk(orig, b_)) if damaged else set(expected)      # blocks the model says are written by the replay (a logged block that is revoked is not)
-    late_replay = []; cur = bytearray(open(img, 'rb').read()); last_replay = -1; fsync_after_replay = -1; jreset = -1; nrclear = -1
-    for i, (op, off, dat) in enumerate(tr):
+    late_replay = []; curs = [bytearray(open(img, 'rb').read()), bytearray(open(jimg, 'rb').read()) if jimg else None]; last_replay = -1; fsync_after_replay = -1; jreset = -1; nrclear = -1
+    for i, (op, off, dat, dev) in enumerate(tr):
         if op == 'S':
-            if last_replay >= 0 and fsync_after_replay < last_replay: fsync_after_replay = i
+            if dev == 0 and last_replay >= 0 and fsync_after_replay < last_replay: fsync_after_replay = i      # only an fsync of the filesystem device makes the replayed blocks durable
             continue
+        cur = curs[dev]
         if off + len(dat) > len(cur): cur.extend(bytes(off + len(dat) - len(cur)))
         cur[off:off + len(dat)] = dat
         first = off // bs; nb = (len(dat) + bs - 1) // bs
-        if any((first + k) in replayed for k in range(nb)):
+        if dev == 0 and any((first + k) in replayed for k in range(nb)):
             if jreset < 0: last_replay = i
             else: late_replay.append(i)
-        if jreset < 0 and struct.unpack_from('>I', cur, jsb_off + 0x1c)[0] == 0: jreset = i
-        if nrclear < 0 and not (struct.unpack_from('<I', cur, 1024 + 0x60)[0] & 4): nrclear = i
+        if jreset < 0 and struct.unpack_from('>I', curs[JD], jsb_off + 0x1c)[0] == 0: jreset = i
+        if nrclear < 0 and not (struct.unpack_from('<I', curs[0], 1024 + 0x60)[0] & 4): nrclear = i
     prob = []
     if late_replay: prob.append('replayed block(s) written (write #%s) only after the journal superblock was marked empty (write #%d)' % (late_replay[:3], jreset))
     elif replayed and last_replay < 0: prob.append('no write to any replayed block seen in the trace')
     if jreset >= 0 and last_replay >= 0 and not (last_replay < fsync_after_replay < jreset): prob.append('journal marked empty (write #%d) without an fsync after the last replayed-block write (#%d; first fsync after it: #%d)' % (jreset, last_replay, fsync_after_replay))
     if nrclear >= 0 and jreset >= 0 and nrclear < jreset and last_replay >= 0 and nrclear < last_replay: prob.append('needs_recovery cleared (write #%d) before the last replayed block was written (#%d)' % (nrclear, last_replay))
-    if nrclear >= 0 and last_replay >= 0 and not any(tr[i][0] == 'S' for i in range(last_replay, nrclear)): prob.append('needs_recovery cleared (write #%d) with no fsync since the last replayed-block write (#%d)' % (nrclear, last_replay))
+    if nrclear >= 0 and last_replay >= 0 and not any(tr[i][0] == 'S' and tr[i][3] == 0 for i in range(last_replay, nrclear)): prob.append('needs_recovery cleared (write #%d) with no fsync since the last replayed-block write (#%d)' % (nrclear, last_replay))
     if prob: return (dict(obs, kind='recovery-ordering', problems=prob, trace_len=len(tr)), fp, True, None, classes)
     # ---- crash states
     rnd = random.Random(case['mask_seed']); states = []
@@ -83,22 +90,24 @@ def body(case, env):
     for _ in range(12):
         k = rnd.randrange(1, len(writes) + 1)
         upto = writes[k - 1] if k else -1
-        lastS = max([i for i in range(upto + 1) if tr[i][0] == 'S'] or [-1])
-        pending = [i for i in writes[:k] if i > lastS]
+        lastS = {dv: max([i for i in range(upto + 1) if tr[i][0] == 'S' and tr[i][3] == dv] or [-1]) for dv in (0, 1)}     # durability is per device
+        pending = [i for i in writes[:k] if i > lastS[tr[i][3]]]
         if not pending: continue
         if len(pending) <= 4:
             for m in range(1, 1 << len(pending)): states.append((k, tuple(p for j, p in enumerate(pending) if m >> j & 1)))
         else: states.append((k, tuple(sorted(rnd.sample(pending, rnd.randrange(1, len(pending)))))))
     states = sorted(set(states)); nontrivial_states = 0; torn = []
-    window_lo = min([i for i in writes if any((tr[i][1] // bs + kk) in replayed for kk in range((len(tr[i][2]) + bs - 1) // bs))] or [0])
-    cw = os.path.join(d, 'c04crash.img')
+    window_lo = min([i for i in writes if tr[i][3] == 0 and any((tr[i][1] // bs + kk) in replayed for kk in range((len(tr[i][2]) + bs - 1) // bs))] or [0])
+    cw = os.path.join(d, 'c04crash.img'); cwj = os.path.join(d, 'c04crash.jnl') if jimg else None
     for k, dropped in states:
         shutil.copyfile(img, cw)
-        with open(cw, 'r+b') as f:
+        if jimg: shutil.copyfile(jimg, cwj)
+        with open(cw, 'r+b') as f, open(cwj or cw, 'r+b') as fj:
             for i in writes[:k]:
                 if i in dropped: continue
-                f.seek(tr[i][1]); f.write(tr[i][2])
-        r2 = recover(ta, fe, cw)
+                ff = fj if tr[i][3] else f
+                ff.seek(tr[i][1]); ff.write(tr[i][2])
+        r2 = recover(ta, fe, cw, jdev=cwj)
         inside = k > 0 and window_lo <= writes[k - 1] and (jreset < 0 or writes[k - 1] <= max(jreset, nrclear))
         if inside: nontrivial_states += 1; env.setdefault('nt', set())
         if r2.rc is None or r2.rc >= 90: return (dict(obs, kind='crash-or-sanitizer-on-rerun', crash_after_write=k, dropped=list(dropped), rc=r2.rc, sig=r2.sig, out=r2.out[-300:]), fp, True, None, classes)
@@ -109,7 +118,8 @@ def body(case, env):
         with open(cw, 'rb') as f: A = f.read()
         bad = [n for n in pool if blk(A, n) != blk(R, n)]
         if bad: return (dict(obs, kind='rerun-differs-from-uninterrupted', crash_after_write=k, of_writes=len(writes), dropped=list(dropped), blocks=bad[:6], crash_offset=tr[writes[k - 1]][1] if k else None), fp, True, None, classes)
-        if struct.unpack_from('>I', A, jsb_off + 0x1c)[0] != 0 or struct.unpack_from('<I', A, 1024 + 0x60)[0] & 4:
+        AJ = open(cwj, 'rb').read() if cwj else A
+        if struct.unpack_from('>I', AJ, jsb_off + 0x1c)[0] != 0 or struct.unpack_from('<I', A, 1024 + 0x60)[0] & 4:
             return (dict(obs, kind='journal-not-empty-after-rerun', crash_after_write=k, dropped=list(dropped)), fp, True, None, classes)
     if torn:
         return (dict(obs, kind='rerun-refused-torn-superblock', crash_points=torn[:6], n=len(torn), of_states=len(states)), fp, True, None, classes)
@@ -121,10 +131,10 @@ def body(case, env):
 
 def run(ctx):
     ctx.rule = RULE
-    ctx.assumptions = ['the device is modelled at system-call level: a write is durable once an fsync on the device returned after it; unflushed writes may be dropped individually (lost or reordered)',
+    ctx.assumptions = ['the devices (filesystem image and, where configured, the external journal device) are modelled at system-call level: a write is durable once an fsync on its own device returned after it; unflushed writes may be dropped individually (lost or reordered)',
                        'prefix crash points are exhaustive per journal; subsets of unflushed writes are sampled (exhaustive when at most 4 writes are pending)', 'evaluations counts journals; each journal contributes the number of crash states shown in its sample']
     tool.replay_tier(ctx, body, envinit)
-    n = int((6 if ctx.tier == 'quick' else 250) * ctx.scale)
+    n = int((16 if ctx.tier == 'quick' else 250) * ctx.scale)
     hyp.run_property(ctx, strategy, body, envinit, max(n, 2))
 
 def replay_file(ctx, path): return tool.replay_file(ctx, path, body, envinit)
